@@ -502,6 +502,8 @@ func cmdCheck(args []string) int {
 			yinfo["wall_s"] = ya.WallS
 			yinfo["groups"] = ya.Counters["probe.conc.groups"]
 			yinfo["hands"] = ya.Counters["probe.conc.hands"]
+			yinfo["distinct_function_pairs_interleaved"] = len(ya.States)
+			yinfo["measure"] = "a pair = (function a hand was switched away from, function the hand resumed in its place is parked in), over all switches inside engine calls"
 			yinfo["cold_start_groups"] = ya.Counters["probe.conc.cold-start-groups"]
 			yinfo["switches_inside_engine_calls"] = ya.Counters["fault.goroutine-switch-inside-engine-call"]
 			yinfo["scheduling_points_passed"] = ya.Counters["probe.conc.scheduling-points"]
